@@ -549,6 +549,9 @@ def call_value(interp, st, f, args, kwargs, node, self_node=None):
         _trust("super().__init__() of a dataset class (GPTDataset / torch Dataset define no __init__) has no effect")
         return None
     if isinstance(f, I.Opaque):
+        if f.what in LIBFUNCS:
+            # a method of a library object we do not look into (e.g. np.random.Generator.permuted) with a library contract of its own
+            return LIBFUNCS[f.what](interp, st, args, kwargs, node)
         raise Outside(f"call of opaque {f.what}", node)
     raise Outside(f"call of {type(f).__name__}", node)
 
